@@ -19,9 +19,16 @@ Definition poly2_ok (h : poly2) : Prop :=
   q_vand h = (fst (q_order h), snd (q_order h), q_mc h) /\
   (q_stale h = false -> forall k, q_pinv h = Some k -> k = q_vand h).
 
+(* the spline cache: a valid key, per-axis bases computed for the key's axes, and a lazy full basis that is
+   absent or the Kronecker product of the CURRENT per-axis bases *)
+Definition spl2_ok (b : spl2) : Prop :=
+  key4_valid (b_key b) = true /\
+  (let '(k1, k2, d1, d2) := b_key b in b_r b = (k1, d1) /\ b_c b = (k2, d2)) /\
+  (forall f, b_full b = Some f -> f = (b_r b, b_c b)).
+
 Definition Inv2 (s : st2) : Prop :=
   (forall h, t_poly s = Some h -> poly2_ok h) /\
-  (forall k, t_spline s = Some k -> key4_valid k = true) /\
+  (forall b, t_spline s = Some b -> spl2_ok b) /\
   1 <= t_solver s <= 4.
 
 Lemma init2_inv x z : Inv2 (init2 x z).
@@ -62,8 +69,26 @@ Definition Sim2 (s f : st2) : Prop :=
 Lemma inv2_upd_poly s h : Inv2 s -> poly2_ok h -> Inv2 (upd2_poly s h).
 Proof. intros (A & B & C) Hh. unfold Inv2, upd2_poly; cbn. split; [intros h' [= <-]; exact Hh|]. split; assumption. Qed.
 
-Lemma inv2_upd_spline s k : Inv2 s -> key4_valid k = true -> Inv2 (upd2_spline s k).
+Lemma inv2_upd_spline s b : Inv2 s -> spl2_ok b -> Inv2 (upd2_spline s b).
 Proof. intros (A & B & C) Hk. unfold Inv2, upd2_spline; cbn. split; [exact A|]. split; [intros k' [= <-]; exact Hk|exact C]. Qed.
+
+Lemma spl2_new_ok k : key4_valid k = true -> spl2_ok (spl2_new k).
+Proof.
+  intros Hk. destruct k as [[[k1 k2] d1] d2]. unfold spl2_ok, spl2_new; cbn.
+  split; [exact Hk|]. split; [split; reflexivity|discriminate].
+Qed.
+
+Lemma spl2_axes b k1 k2 d1 d2 : spl2_ok b -> b_key b = (k1, k2, d1, d2) -> b_r b = (k1, d1) /\ b_c b = (k2, d2).
+Proof. intros (_ & H & _) E. rewrite E in H. exact H. Qed.
+
+Lemma get_full_ok b : spl2_ok b ->
+  spl2_ok (get_full b) /\ b_full (get_full b) = Some (b_r b, b_c b) /\ b_key (get_full b) = b_key b.
+Proof.
+  intros (A & B & C). unfold get_full, spl2_ok. destruct (b_full b) as [f|] eqn:E.
+  - split; [split; [exact A|split; [exact B|intros f0 Hf0; apply C; rewrite <- Hf0; symmetry; exact E]]|].
+    split; [rewrite E, (C f eq_refl); reflexivity|reflexivity].
+  - cbn. split; [|split; reflexivity]. unfold spl2_ok; cbn. split; [exact A|]. split; [exact B|]. intros f [= <-]. reflexivity.
+Qed.
 
 Ltac sim5 := split; [|split; [|split; [|split]]].
 Ltac fin2 HS := split; [reflexivity|split; [reflexivity|exact HS]].
@@ -75,7 +100,7 @@ Lemma do_setup2_sim s f u : Sim2 s f ->
 Proof.
   intros HS. pose proof HS as (Ax & Az & As & Is & If).
   assert (Hw : forall w, wok2 f w = wok2 s w) by (intros w; unfold wok2; rewrite Ax, Az; reflexivity).
-  destruct u as [w px pz mc cv cp|w k mk dox doz|]; cbn [do_setup2]; rewrite ?Hw.
+  destruct u as [w px pz mc cv cp|w k mk dox doz full|]; cbn [do_setup2]; rewrite ?Hw.
   - destruct (wok2 s w); cbn [negb]; [|fin2 HS].
     destruct ((px <? 0) || (pz <? 0)); [fin2 HS|].
     destruct (cv && match mc with Some m => m <? 0 | None => false end); [fin2 HS|].
@@ -106,20 +131,33 @@ Proof.
   - destruct (wok2 s w); cbn [negb]; [|fin2 HS].
     destruct ((dox <? 1) || (doz <? 1)); [fin2 HS|].
     destruct mk; cbn [negb]; [|fin2 HS].
-    assert (Hsame : forall t, Inv2 t -> same_basis2 (t_spline t) k = true -> key4_valid k = true /\ t_spline t = Some k).
-    { intros t (_ & B & _) E. unfold same_basis2 in E. destruct (t_spline t) as [k0|] eqn:E0; [|discriminate].
-      apply key4_eqb_eq in E. subst k0. split; [apply B; reflexivity|reflexivity]. }
+    assert (Hsame : forall t, Inv2 t -> same_basis2 (t_spline t) k = true ->
+                    key4_valid k = true /\ exists b, t_spline t = Some b /\ b_key b = k /\ spl2_ok b).
+    { intros t (_ & B & _) E. unfold same_basis2 in E. destruct (t_spline t) as [b0|] eqn:E0; [|discriminate].
+      apply key4_eqb_eq in E. pose proof (B b0 eq_refl) as Hb. split; [rewrite E; apply Hb|].
+      exists b0. repeat split; try congruence; apply Hb. }
     destruct (key4_valid k) eqn:Ev; cbn [negb]; rewrite ?andb_false_r, ?andb_true_r.
-    + assert (Ts : t_spline (if same_basis2 (t_spline s) k then s else upd2_spline s k) = Some k).
-      { destruct (same_basis2 (t_spline s) k) eqn:E; [apply (Hsame s Is E)|reflexivity]. }
-      assert (Tf : t_spline (if same_basis2 (t_spline f) k then f else upd2_spline f k) = Some k).
-      { destruct (same_basis2 (t_spline f) k) eqn:E; [apply (Hsame f If E)|reflexivity]. }
-      assert (HS1 : Sim2 (if same_basis2 (t_spline s) k then s else upd2_spline s k)
-                         (if same_basis2 (t_spline f) k then f else upd2_spline f k)).
+    + assert (Ts : exists b, t_spline (if same_basis2 (t_spline s) k then s else upd2_spline s (spl2_new k)) = Some b
+                             /\ b_key b = k /\ spl2_ok b).
+      { destruct (same_basis2 (t_spline s) k) eqn:E; [apply (Hsame s Is E)|].
+        exists (spl2_new k). split; [reflexivity|]. split; [destruct k as [[[? ?] ?] ?]; reflexivity|apply spl2_new_ok, Ev]. }
+      assert (Tf : exists b, t_spline (if same_basis2 (t_spline f) k then f else upd2_spline f (spl2_new k)) = Some b
+                             /\ b_key b = k /\ spl2_ok b).
+      { destruct (same_basis2 (t_spline f) k) eqn:E; [apply (Hsame f If E)|].
+        exists (spl2_new k). split; [reflexivity|]. split; [destruct k as [[[? ?] ?] ?]; reflexivity|apply spl2_new_ok, Ev]. }
+      assert (HS1 : Sim2 (if same_basis2 (t_spline s) k then s else upd2_spline s (spl2_new k))
+                         (if same_basis2 (t_spline f) k then f else upd2_spline f (spl2_new k))).
       { destruct (same_basis2 (t_spline s) k), (same_basis2 (t_spline f) k); unfold Sim2; cbn;
-          sim5; try assumption; try (apply inv2_upd_spline; assumption). }
+          sim5; try assumption; try (apply inv2_upd_spline; [assumption|apply spl2_new_ok, Ev]). }
+      destruct Ts as (bs & Ts & Ks & Os). destruct Tf as (bf & Tf & Kf & Of).
       rewrite Ts, Tf. destruct k as [[[k1 k2] d1] d2].
-      destruct ((k1 + d1 - 1 <=? dox) || (k2 + d2 - 1 <=? doz)); (split; [reflexivity|split; [reflexivity|exact HS1]]).
+      destruct (spl2_axes bs _ _ _ _ Os Ks) as [Rs Cs]. destruct (spl2_axes bf _ _ _ _ Of Kf) as [Rf Cf].
+      rewrite Rs, Cs, Rf, Cf.
+      destruct ((nbases (k1, d1) <=? dox) || (nbases (k2, d2) <=? doz)); [split; [reflexivity|split; [reflexivity|exact HS1]]|].
+      destruct full; [|split; [reflexivity|split; [reflexivity|exact HS1]]].
+      destruct (get_full_ok bs Os) as (Gs & Fs & Ks'). destruct (get_full_ok bf Of) as (Gf & Ff & Kf').
+      rewrite Fs, Ff, Rs, Cs, Rf, Cf. split; [reflexivity|]. split; [reflexivity|].
+      destruct HS1 as (X1 & X2 & X3 & X4 & X5). unfold Sim2; cbn. sim5; try assumption; apply inv2_upd_spline; assumption.
     + assert (Es : same_basis2 (t_spline s) k = false).
       { destruct (same_basis2 (t_spline s) k) eqn:E; [|reflexivity]. destruct (Hsame s Is E). congruence. }
       assert (Ef : same_basis2 (t_spline f) k = false).
